@@ -44,6 +44,24 @@ BAD = {
 }
 
 
+# values whose fault a converter meets only after it has produced part of its text: the last item / field / document /
+# node is the unconvertible one (added after a sixth-round seeded change: an artifact opened before the conversion ended)
+LATE = {
+    "json": ['{a = "x", b = [1, 2], z = cc}', '[1, "s", cc]'],
+    "yaml": ['{a = "x", b = [1, 2], z = cc}', '[1, "s", cc]'],
+    "yamlmulti": ['[{a = 1}, {b = 2}, cc]', '[{a = 1}, {b = cc}]'],
+    "toml": ['{a = "x", t = {b = 1}, z = NULL}', '{a = "x", l = [1, 2], z = cc}'],
+    "env": [],
+    "flags": [],
+    "exec": ['{command = "echo", env = {A = "b"}, args = ["one", 2]}', '{command = "echo", env = {A = "b", N = 3}, args = ["one"]}',
+             '{command = "echo", args = ["one", {f = 1}, [1]]}'],
+    "xml": ['{root = {name = "r", attrs = {k = "v"}, children = [{name = "a"}, "t", 1]}}', '{root = {name = "r", children = [{name = "a", children = [{name = "b"}, {}]}]}}',
+            '{root = {name = "r", children = [{name = "a", attrs = {k = 1}}]}}'],
+}
+for _f, _vs in LATE.items():
+    BAD[_f] = BAD[_f] + _vs
+
+
 def source(fmt, exprs):
     """file with one `out` per expression"""
     lines = [PRE]
